@@ -171,6 +171,50 @@ def partial_schema_cases(ctx, work):
     shutil.rmtree(icf, ignore_errors=True)
 
 
+def undeletable_leftover_case(ctx, work):
+    """the work directory cannot be removed completely at finalise (a file a straggling process still holds open on NFS, a
+    foreign-owned leftover): finalise may fail, but it must not declare a store finished that still contains `wip/`"""
+    import errno
+    import os
+    from bio2zarr import vcf2zarr
+    rng = ctx.rng
+    spec = vcfgen.rich_file(rng, nrec=6, nsamples=2, ploidies=(2,))
+    if len(spec["records"]) < 2:
+        return
+    path = vcfgen.materialise(spec, pathlib.Path(work) / "ul", "vcf.gz+tbi")
+    icf, out = pathlib.Path(work) / "ul.icf", pathlib.Path(work) / "ul.zarr"
+    convlib.explode(icf, [path])
+    shutil.rmtree(out, ignore_errors=True)
+    s_ = vcf2zarr.encode_init(icf, out, target_num_partitions=2, variants_chunk_size=2)
+    for j in range(s_.num_partitions):
+        vcf2zarr.encode_partition(out, j)
+    busy = out / "wip" / "partitions" / "p0" / ".nfs00000000deadbeef00000001"
+    busy.write_text("held open elsewhere")
+    real_unlink = os.unlink
+
+    def unlink(p, *a, **k):
+        if os.path.basename(os.fspath(p)).startswith(".nfs"):
+            raise OSError(errno.EBUSY, "Device or resource busy", os.fspath(p))
+        return real_unlink(p, *a, **k)
+    os.unlink = unlink
+    ctx.case(("undeletable leftover",), True)
+    ctx.count("undeletable_leftover_cases")
+    try:
+        try:
+            vcf2zarr.encode_finalise(out)
+            finished = True
+        except Exception:  # noqa: BLE001
+            finished = False
+    finally:
+        os.unlink = real_unlink
+    if finished and (out / "wip").exists():
+        left = sorted(str(p.relative_to(out)) for p in (out / "wip").rglob("*"))[:4]
+        ctx.violate(f"encode_finalise reported success but the store still contains the work directory: {left}", {"vcf_spec": spec},
+                    "error, or a store without wip/", left)
+    shutil.rmtree(out, ignore_errors=True)
+    shutil.rmtree(icf, ignore_errors=True)
+
+
 def run(ctx):
     work = common.scratch_dir("c02-")
     try:
@@ -188,6 +232,7 @@ def run(ctx):
                 check_one(ctx, spec, work, f"many{'dot' if sep == '.' else 'slash'}", force={"vcs": 1, "scs": 1, "sep": sep})
                 ctx.count("many_chunks_cases")
         partial_schema_cases(ctx, work)
+        undeletable_leftover_case(ctx, work)
         schema_correspondence(ctx, work)
     finally:
         shutil.rmtree(work, ignore_errors=True)
